@@ -482,6 +482,10 @@ def alone(scratch, data, ignore_nosec, debug, inject=None):
     return _alone_cache[key]
 
 
+class UnknownDiscovered(Exception):
+    pass
+
+
 # ----------------------------------------------------------------------------- expectations for the model
 def expected_outcomes(scn, obs, datas, cls):
     """Per discovered file (in `obs['discovered']` order) the outcome vector sent to the Lean model.
@@ -504,6 +508,9 @@ def expected_outcomes(scn, obs, datas, cls):
                 o.update({k: v for k, v in c.items() if v is not None})
             shown = "<stdin>"
         else:
+            if name not in paths:
+                # the implementation names a file nobody discovered (e.g. stdin treated as a path): left to the accounting oracle, which reports it
+                raise UnknownDiscovered(name)
             i = paths.index(name)
             c = cls[i]
             o.update({k: v for k, v in c.items() if v is not None})
@@ -573,7 +580,11 @@ def check_scenario(res, drv, scratch, scn, obs, label, oracle=True):
         by_file.setdefault(fn, []).append(t)
 
     # ------------------------------------------------------------------ (a) Lean model
-    outs, inferred = expected_outcomes(scn, obs, datas, cls)
+    try:
+        outs, inferred = expected_outcomes(scn, obs, datas, cls)
+    except UnknownDiscovered as e:
+        res.violation("the list of discovered files names something that is not one of the targets", {"name": str(e), "discovered": obs["discovered"], "scenario_label": label})
+        return False
     if inferred:
         res.count("visit-outcome-inferred")
     model = None
